@@ -152,7 +152,7 @@ def directed(rng, kind, **o):
         sc = base_scenario(rng, nsteps=nsteps, ntimes=3, nkill=3, nfreeze=0, ops=rng.choice([2, 3]), numrec=rng.choice([1, 2]), pvars=True, cont=False,
                            dt=32, nland=rng.choice([0, 2]), **o)
         for r in sc["rows"]:
-            r["mult"] = rng.choice([130, 260, 400])
+            r["mult"] = rng.choice([90, 130, 260])
         npart = sum(r["mult"] for r in sc["rows"])
         sc["kill"] = sorted([rng.randrange(0, nsteps), rng.randrange(0, npart)] for _ in range(12))
         sc["cls"] = dict(sc["cls"], scale=True)
